@@ -173,9 +173,28 @@ static void rm_rf(const char *path) {
     }
     rmdir(path);
 }
+/* "[97,98]" -> exact-size heap block (any length; common.h's vh_bytes is limited to 65536 bytes) */
+static unsigned char *cr_bytes(const char *t, size_t *len, int nul) {
+    size_t n = 0, cap = strlen(t) / 2 + 2; const char *p = t;
+    unsigned char *tmp = (unsigned char *) malloc(cap), *out;
+    if (*p == '[') p++;
+    while (*p && *p != ']') {
+        char *e; long v = strtol(p, &e, 10);
+        if (e == p) break;
+        tmp[n++] = (unsigned char) v;
+        p = e;
+        if (*p == ',') p++;
+    }
+    out = (unsigned char *) malloc(n + (nul ? 1 : (n ? 0 : 1)));
+    memcpy(out, tmp, n);
+    if (nul) out[n] = 0;
+    free(tmp);
+    if (len) *len = n;
+    return out;
+}
 static char *argstr(const char *tok) {          /* exact-size heap copy; NULL for "-" */
     if (!strcmp(tok, "-")) return NULL;
-    return (char *) vh_bytes(tok, NULL, 1);
+    return (char *) cr_bytes(tok, NULL, 1);
 }
 static void sb_snap(vh_sb *b) {
     struct spifconf_verif v;
@@ -248,7 +267,7 @@ static const char *vh_step(const vh_step_t *st, vh_sb *ret, vh_sb *state) {
         sb_reset(state); sb_snap(state);
 #endif
     } else if (!strcmp(op, "file")) {
-        size_t n; char *name = argstr(st->args[0]); unsigned char *data = vh_bytes(st->args[1], &n, 0);
+        size_t n; char *name = argstr(st->args[0]); unsigned char *data = cr_bytes(st->args[1], &n, 0);
         int fd = open(name, O_WRONLY | O_CREAT | O_TRUNC, 0644);
         if (fd < 0 || write(fd, data, n) != (ssize_t) n) { perror(name); exit(2); }
         close(fd);
@@ -312,7 +331,7 @@ static const char *vh_step(const vh_step_t *st, vh_sb *ret, vh_sb *state) {
         free(name); free(dir); free(path);
         check_caps("after-parse");
     } else if (!strcmp(op, "expand")) {
-        size_t n; unsigned char *data = vh_bytes(st->args[0], &n, 1);
+        size_t n; unsigned char *data = cr_bytes(st->args[0], &n, 1);
         char *buf = (char *) malloc(CONFIG_BUFF); spif_charptr_t r;
         int fd0 = count_fds(), fd1;
         if (n >= CONFIG_BUFF) n = CONFIG_BUFF - 1;
@@ -337,7 +356,7 @@ static const char *vh_step(const vh_step_t *st, vh_sb *ret, vh_sb *state) {
         sb_cstr(ret, (const char *) r);
         free(file); free(dir); free(path);
     } else if (!strcmp(op, "temp")) {
-        size_t n; unsigned char *tpl = vh_bytes(st->args[0], &n, 1);
+        size_t n; unsigned char *tpl = cr_bytes(st->args[0], &n, 1);
         long len = vh_int(st->args[1]);
         /* caller's buffer of exactly len bytes (redzone behind it), holding the template */
         char *buf = (char *) malloc(len > 0 ? (size_t) len : 1);
